@@ -49,6 +49,7 @@ meta = {"breaks_property": props[0], "origin": "independent sub-agent given only
         "needs": open(os.path.join(dst, "NOTES.md")).read()[:1500] if os.path.exists(os.path.join(dst, "NOTES.md")) else "",
         "demo": {"clean_tree_exit": rc_clean, "mutated_tree_exit": rc_mut, "mutated_output_tail": out_mut.strip().splitlines()[-3:]},
         "checks_on_mutated_tree": results,
-        "ran": ["git -C /repo apply seeded/%s/patch.diff" % sid] + ["./check %s --tier quick" % p for p in props] + ["git -C /repo checkout -- ."]}
+        "ran": ["git -C %s apply seeded/%s/patch.diff" % (REPO, sid)] + ["%s./check %s --tier quick" % (CHK, p) for p in props] + ["git -C %s checkout -- ." % REPO] +
+               (["(%s = scratch worktree of /repo at HEAD: /repo itself was serving a background sweep)" % REPO] if REPO != "/repo" else [])}
 json.dump(meta, open(os.path.join(dst, "meta.json"), "w"), indent=1)
 print(json.dumps({"demo_clean": rc_clean, "demo_mutant": rc_mut, "checks": {p: (v["exit"], v["violations"], v["first"][:160]) for p, v in results.items()}}, indent=1))
